@@ -86,6 +86,8 @@ def rename_parts(parts, rng):
     tree = rels["xml"]
     for kind, std in kinds.items():
         if std in names and rng.random() < 0.5:
+            if sum(1 for c in tree[2] if not isinstance(c, str) and dict(map(tuple, c[1])).get("Type", "").endswith("/" + kind)) > 1:
+                continue    # several relationships of this type (decoys): replacing them by one would change which part is read
             new = "word/%s_%d.xml" % (kind, rng.randint(2, 9))
             # drop any existing relationship of that type, add the new one
             tree = [tree[0], tree[1], [c for c in tree[2] if isinstance(c, str) or not dict(map(tuple, c[1])).get("Type", "").endswith("/" + kind)]]
@@ -103,6 +105,59 @@ def rename_parts(parts, rng):
 
 
 LOCATED_KINDS = ("styles", "numbering", "footnotes", "endnotes", "comments")
+
+def with_decoy_relationships(parts, rng):
+    """several relationships of ONE type (first existing target wins: docx/__init__.py _find_part_path): a second styles /
+    numbering / notes / comments relationship to another EXISTING part with different content, before or after the real
+    one, and relationships of that type whose target does not exist (skipped).  Not a respelling: these are canonical
+    cases, compared with the Lean model."""
+    parts = [dict(p) for p in parts]
+    rels = next((p for p in parts if p["name"] == "word/_rels/document.xml.rels" and "xml" in p), None)
+    if rels is None:
+        return parts, []
+    names = {p["name"] for p in parts}
+    tree = [rels["xml"][0], rels["xml"][1], list(rels["xml"][2])]
+    feats = []
+    for kind in LOCATED_KINDS:
+        std = "word/%s.xml" % kind
+        src = next((p for p in parts if p["name"] == std and "xml" in p), None)
+        if src is None or rng.random() < 0.6:
+            continue
+        ty = "http://schemas.openxmlformats.org/officeDocument/2006/relationships/" + kind
+        have = [c for c in tree[2] if not isinstance(c, str) and dict(map(tuple, c[1])).get("Type") == ty]
+        if not have:
+            tree[2].append(el("relationships:Relationship", [("Id", "rIdStd" + kind), ("Type", ty), ("Target", kind + ".xml")]))
+        # the decoy: the same root element with (almost) no content
+        decoy_name = "word/%s_decoy.xml" % kind
+        if decoy_name not in names:
+            if kind in ("styles", "numbering"):
+                # dangling style and numbering references are tolerated: the decoy defines nothing
+                parts.append({"name": decoy_name, "xml": [src["xml"][0], src["xml"][1], []]})
+            else:
+                # note and comment references must resolve: the decoy has the same notes with other text
+                def retext(t):
+                    if isinstance(t, str):
+                        return t
+                    if t[0] == "w:t":
+                        return [t[0], t[1], ["DECOY"]]
+                    return [t[0], t[1], [retext(c) for c in t[2]]]
+                parts.append({"name": decoy_name, "xml": retext(src["xml"])})
+        decoy = el("relationships:Relationship", [("Id", "rIdDecoy" + kind), ("Type", ty), ("Target", rng.choice([kind + "_decoy.xml", "/word/%s_decoy.xml" % kind]))])
+        missing = el("relationships:Relationship", [("Id", "rIdGone" + kind), ("Type", ty), ("Target", kind + "_gone.xml")])
+        where = rng.choice(["decoy-first", "decoy-last", "missing-first", "missing-first-decoy-last"])
+        if where == "decoy-first":
+            tree[2].insert(0, decoy)
+        elif where == "decoy-last":
+            tree[2].append(decoy)
+        elif where == "missing-first":
+            tree[2].insert(0, missing)
+        else:
+            tree[2].insert(0, missing)
+            tree[2].append(decoy)
+        feats.append("several-relationships-of-one-type:" + where)
+    rels["xml"] = tree
+    return parts, feats
+
 
 
 def located_types(parts, rels_name):
@@ -362,6 +417,12 @@ def run(out, tier, seed, model_ok):
     rng = random.Random(seed * 7919 + 13)
     n = common.deepen(400 if tier == "quick" else 6000)
     cs = A.gen_cases(seed, n, PROFILE, sm=dict(hid=0), tag="c13-")
+    drng = random.Random(seed * 7919 + 131)
+    for c in cs:
+        if drng.random() < 0.15:
+            c["parts"], feats = with_decoy_relationships(c["parts"], drng)
+            for f in feats:
+                out.extra.setdefault("c13_features", {})[f] = out.extra.get("c13_features", {}).get(f, 0) + 1
     run_ = A.ApiRun(out, "C13", model_ok, lambda r, c: {"value": r["value"], "messages": r.get("messages"), "raw": r.get("raw")}, name="canonical")
     run_.run(cs, nontrivial=lambda c, r: True)
     k = 3 if tier == "quick" else 6
